@@ -51,7 +51,7 @@ Definition ClassRkH (old : cache) : Prop :=
   (forall k f' a' k' subs' r' sf', subs_get (c_subs old) k = Some (Some (OSubbuild f' a' k' subs' r' false sf')) ->
      forallb (rec_ok true []) subs' = true).
 
-Lemma okc_ClassRk : forall c0 old, okcH c0 old -> ClassRkH old.
+Lemma okcH_ClassRkH : forall c0 old, okcH c0 old -> ClassRkH old.
 Proof.
   intros c0 old [H1 H2]. split.
   - intros p p' c' f' a' k' subs' r' cr' sf' Eg. pose proof (H1 _ _ Eg) as K. cbn [frec_staticH orb] in K.
